@@ -7,9 +7,8 @@ Core Lean only.  Generic in the scalar type `K` (core `Add Sub Mul Div Neg OfNat
 absolute values (`absval : K → Q`, `<` and `==` on `Q`), so that the driver runs it over the prime field
 GF(32003) and over `Float`, and the theorems of Props/C02.lean instantiate it at an arbitrary `Field`.
 
-Matrices and vectors are functions on `Fin n` wrapped in a structure (`Mat.f`, `Vec.f`).  `memo` tabulates a
-matrix into an array (it is the identity, `Mat.memo_eq`); it only keeps the executable model from nesting
-closures.  The C++ loops are kept as folds over `List.finRange n`:
+Matrices and vectors are arrays with their size (`Mat`, `Vec`), read with `Mat.f A i j` / `Vec.f v i` and
+built entry-wise with `Mat.ofFn` / `Vec.ofFn` (`Mat.ofFn_f : (Mat.ofFn g).f i j = g i j`).  The C++ loops are kept as folds over `List.finRange n`:
 `forUp`  = `for (k = 0; k < n; ++k)`,  `forDown` = `for (k = n; k > 0;) { --k; … }`; loops that start at
 `i+1` are written with the guard `i < k` inside the body.
 -/
@@ -17,31 +16,35 @@ namespace DV.C02
 
 /-! ### matrices, vectors, loops -/
 
+/-- an n×n array of scalars -/
 structure Mat (n : Nat) (K : Type) where
-  f : Fin n → Fin n → K
+  rows : Array (Array K)
+  wf : rows.size = n ∧ ∀ i (hi : i < rows.size), rows[i].size = n
 
+/-- `A[i][j]` -/
+def Mat.f {n : Nat} {K : Type} (A : Mat n K) (i j : Fin n) : K :=
+  (A.rows[i.1]'(by have := A.wf.1; omega))[j.1]'(by rw [A.wf.2]; exact j.2)
+
+/-- the matrix with entries `g i j` (tabulated) -/
+def Mat.ofFn {n : Nat} {K : Type} (g : Fin n → Fin n → K) : Mat n K :=
+  ⟨Array.ofFn (fun i => Array.ofFn (fun j => g i j)), by simp⟩
+
+@[simp] theorem Mat.ofFn_f {n : Nat} {K : Type} (g : Fin n → Fin n → K) (i j : Fin n) :
+    (Mat.ofFn g).f i j = g i j := by
+  simp [Mat.f, Mat.ofFn]
+
+/-- an array of n scalars -/
 structure Vec (n : Nat) (K : Type) where
-  f : Fin n → K
+  arr : Array K
+  wf : arr.size = n
 
-def Mat.ofArr {n : Nat} {K : Type} (arr : Array (Array K))
-    (h : arr.size = n ∧ ∀ i (hi : i < arr.size), arr[i].size = n) : Mat n K :=
-  ⟨fun i j => (arr[i.1]'(by omega))[j.1]'(by rw [h.2]; exact j.2)⟩
+/-- `v[i]` -/
+def Vec.f {n : Nat} {K : Type} (v : Vec n K) (i : Fin n) : K := v.arr[i.1]'(by have := v.wf; omega)
 
-/-- tabulate (identity on the denoted matrix) -/
-def Mat.memo {n : Nat} {K : Type} (A : Mat n K) : Mat n K :=
-  Mat.ofArr (Array.ofFn (fun i => Array.ofFn (fun j => A.f i j))) (by simp)
+def Vec.ofFn {n : Nat} {K : Type} (g : Fin n → K) : Vec n K := ⟨Array.ofFn g, by simp⟩
 
-@[simp] theorem Mat.memo_eq {n : Nat} {K : Type} (A : Mat n K) : A.memo = A := by
-  cases A; simp [Mat.memo, Mat.ofArr]
-
-def Vec.ofArr {n : Nat} {K : Type} (arr : Array K) (h : arr.size = n) : Vec n K :=
-  ⟨fun i => arr[i.1]'(by omega)⟩
-
-def Vec.memo {n : Nat} {K : Type} (v : Vec n K) : Vec n K :=
-  Vec.ofArr (Array.ofFn (fun i => v.f i)) (by simp)
-
-@[simp] theorem Vec.memo_eq {n : Nat} {K : Type} (v : Vec n K) : v.memo = v := by
-  cases v; simp [Vec.memo, Vec.ofArr]
+@[simp] theorem Vec.ofFn_f {n : Nat} {K : Type} (g : Fin n → K) (i : Fin n) : (Vec.ofFn g).f i = g i := by
+  simp [Vec.f, Vec.ofFn]
 
 /-- `for (k = 0; k < n; ++k) st = body k st` -/
 def forUp (n : Nat) {β : Type} (init : β) (body : Fin n → β → β) : β :=
@@ -77,28 +80,29 @@ def pivotSearch (absval : K → Q) (A : Mat n K) (i : Fin n) : Q × Fin n :=
 
 /-- `for j: swap(A[i][j], A[imax][j])` -/
 def swapRows (A : Mat n K) (i imax : Fin n) : Mat n K :=
-  ⟨fun r c => if r = i then A.f imax c else if r = imax then A.f i c else A.f r c⟩
+  Mat.ofFn fun r c => if r = i then A.f imax c else if r = imax then A.f i c else A.f r c
 
 /-- `factor = A[k][i]/A[i][i]` -/
 def factor (A : Mat n K) (i k : Fin n) : K := A.f k i / A.f i i
 
 /-- `A[k][i] = factor; for j = i+1..n-1: A[k][j] -= factor*A[i][j]` -/
 def elimRow (A : Mat n K) (i k : Fin n) (fac : K) : Mat n K :=
-  ⟨fun r c => if r = k then (if c = i then fac else if i < c then A.f k c - fac * A.f i c else A.f k c)
-              else A.f r c⟩
+  Mat.ofFn fun r c =>
+    if r = k then (if c = i then fac else if i < c then A.f k c - fac * A.f i c else A.f k c)
+    else A.f r c
 
 /-- the elimination loop of outer step `i`: `for k = i+1..n-1 { factor…; A[k]… ; func(factor, k, i) }` -/
 def elimLoop (F : Func n K S) (A : Mat n K) (s : S) (i : Fin n) : Mat n K × S :=
   forUp n (A, s) fun k st =>
     if i < k then
-      ((elimRow st.1 i k (factor st.1 i k)).memo, F.elim st.2 (factor st.1 i k) k i)
+      (elimRow st.1 i k (factor st.1 i k), F.elim st.2 (factor st.1 i k) k i)
     else st
 
 /-- pivot value, row-swapped matrix and functor state at the singularity test of outer step `i` -/
 def pivotPhase (doPivoting : Bool) (absval : K → Q) (F : Func n K S) (A : Mat n K) (s : S) (i : Fin n) :
     Q × Mat n K × S :=
   if doPivoting then
-    ((pivotSearch absval A i).1, (swapRows A i (pivotSearch absval A i).2).memo,
+    ((pivotSearch absval A i).1, swapRows A i (pivotSearch absval A i).2,
       F.swap s i (pivotSearch absval A i).2)
   else (absval (A.f i i), A, s)
 
@@ -124,12 +128,12 @@ def luDecomp (doPivoting : Bool) (absval : K → Q) (F : Func n K S) (A : Mat n 
 
 /-- `Elim<V>`: swaps / updates the right-hand side -/
 def elimFunc : Func n K (Vec n K) where
-  swap rhs i j := (⟨fun r => if r = i then rhs.f j else if r = j then rhs.f i else rhs.f r⟩ : Vec n K).memo
-  elim rhs fac k i := (⟨fun r => if r = k then rhs.f k - fac * rhs.f i else rhs.f r⟩ : Vec n K).memo
+  swap rhs i j := Vec.ofFn fun r => if r = i then rhs.f j else if r = j then rhs.f i else rhs.f r
+  elim rhs fac k i := Vec.ofFn fun r => if r = k then rhs.f k - fac * rhs.f i else rhs.f r
 
 /-- `ElimPivot`: `pivot_[i] = (i == j) ? pivot_[i] : j` -/
 def pivotFunc : Func n K (Vec n (Fin n)) where
-  swap p i j := (⟨fun r => if r = i then (if i = j then p.f i else j) else p.f r⟩ : Vec n (Fin n)).memo
+  swap p i j := Vec.ofFn fun r => if r = i then (if i = j then p.f i else j) else p.f r
   elim p _ _ _ := p
 
 /-- `ElimDet`: `sign_ *= (i == j) ? 1 : -1` -/
@@ -146,9 +150,9 @@ inductive Res (α : Type) where
 /-- `for i = n-1..0 { for j = i+1..n-1: rhs[i] -= A[i][j]*x[j];  x[i] = rhs[i]/A[i][i] }` (rhs and x are one object) -/
 def backSubst (A : Mat n K) (rhs : Vec n K) : Vec n K :=
   forDown n rhs fun i x =>
-    (⟨fun r => if r = i then
-        (forUp n (x.f i) fun j acc => if i < j then acc - A.f i j * x.f j else acc) / A.f i i
-      else x.f r⟩ : Vec n K).memo
+    Vec.ofFn fun r =>
+      if r = i then (forUp n (x.f i) fun j acc => if i < j then acc - A.f i j * x.f j else acc) / A.f i i
+      else x.f r
 
 /-- the `else` branch (rows() ≥ 4) of `DenseMatrix::solve` -/
 def solveLU (doPivoting : Bool) (absval : K → Q) (A : Mat n K) (b : Vec n K) : Res (Vec n K) :=
@@ -166,30 +170,31 @@ def detLU (doPivoting : Bool) (absval : K → Q) (A : Mat n K) : K :=
 
 /-! ### invert -/
 
-def idPivot : Vec n (Fin n) := ⟨fun i => i⟩
+def idPivot : Vec n (Fin n) := Vec.ofFn fun i => i
 
-def identity : Mat n K := ⟨fun i j => if i = j then (1 : K) else (0 : K)⟩
+def identity : Mat n K := Mat.ofFn fun i j => if i = j then (1 : K) else (0 : K)
 
 /-- `L Y = I`: `for i: for j < i: for k: B[i][k] -= L[i][j]*B[j][k]` -/
 def forwardL (L : Mat n K) (B : Mat n K) : Mat n K :=
   forUp n B fun i B =>
     forUp n B fun j B =>
-      if j < i then (⟨fun r c => if r = i then B.f i c - L.f i j * B.f j c else B.f r c⟩ : Mat n K).memo else B
+      if j < i then Mat.ofFn fun r c => if r = i then B.f i c - L.f i j * B.f j c else B.f r c
+      else B
 
 /-- `U X = Y`: `for i = n-1..0: for k: { for j = i+1..n-1: B[i][k] -= U[i][j]*B[j][k];  B[i][k] /= U[i][i] }` -/
 def backwardU (U : Mat n K) (B : Mat n K) : Mat n K :=
   forDown n B fun i B =>
-    (⟨fun r c => if r = i then
-        (forUp n (B.f i c) fun j acc => if i < j then acc - U.f i j * B.f j c else acc) / U.f i i
-      else B.f r c⟩ : Mat n K).memo
+    Mat.ofFn fun r c =>
+      if r = i then (forUp n (B.f i c) fun j acc => if i < j then acc - U.f i j * B.f j c else acc) / U.f i i
+      else B.f r c
 
 /-- `for j: swap(B[j][pi], B[j][i])` -/
 def swapCols (B : Mat n K) (pi i : Fin n) : Mat n K :=
-  ⟨fun r c => if c = pi then B.f r i else if c = i then B.f r pi else B.f r c⟩
+  Mat.ofFn fun r c => if c = pi then B.f r i else if c = i then B.f r pi else B.f r c
 
 /-- `for i = n-1..0: if (i != pivot[i]) swap columns pivot[i], i` -/
 def unpermute (pivot : Vec n (Fin n)) (B : Mat n K) : Mat n K :=
-  forDown n B fun i B => if i ≠ pivot.f i then (swapCols B (pivot.f i) i).memo else B
+  forDown n B fun i B => if i ≠ pivot.f i then swapCols B (pivot.f i) i else B
 
 /-- the `else` branch (rows() ≥ 4) of `DenseMatrix::invert` -/
 def invertLU (doPivoting : Bool) (absval : K → Q) (A : Mat n K) : Res (Mat n K) :=
@@ -206,10 +211,10 @@ section Diag
 variable {n : Nat} {K : Type} [Mul K] [Div K] [OfNat K 1]
 
 /-- `for i: x[i] = b[i]/diag_[i]` -/
-def solveDiag (d b : Vec n K) : Vec n K := ⟨fun i => b.f i / d.f i⟩
+def solveDiag (d b : Vec n K) : Vec n K := Vec.ofFn fun i => b.f i / d.f i
 
 /-- `for i: diag_[i] = real_type(1.0)/diag_[i]` -/
-def invertDiag (d : Vec n K) : Vec n K := ⟨fun i => (1 : K) / d.f i⟩
+def invertDiag (d : Vec n K) : Vec n K := Vec.ofFn fun i => (1 : K) / d.f i
 
 /-- `det = diag_[0]; for i = 1..n-1: det *= diag_[i]` -/
 def detDiag (d : Vec (n + 1) K) : K :=
